@@ -779,6 +779,36 @@ def rule_R22(toks: List[Tok], k: int, fld: str, rep: Report, fn: str) -> List[To
     return toks[:kw] + new + toks[bc + 1:]
 
 
+def rule_R28(toks: List[Tok], err: str, rep: Report, fn: str) -> List[Tok]:
+    """anyhow's  ensure!(COND, MESSAGE...)  ->  if !(COND) { return Err(ERR); }   -- the definition of the macro
+    (`if !COND { return Err(anyhow!(MESSAGE...)) }`) with the error value made opaque (the message is dropped, and reported)."""
+    out = []
+    i = 0
+    hits = 0
+    while i < len(toks):
+        t = toks[i]
+        if t.kind == "ident" and t.text == "ensure" and i + 2 < len(toks) and is_p(toks[i + 1], "!") and is_p(toks[i + 2], "("):
+            close = match_close(toks, i + 2)
+            parts = split_top(toks[i + 3:close], ",")
+            cond = list(parts[0])
+            if not cond:
+                raise Undecided(f"R28: ensure! without a condition in {fn}")
+            cond[0] = Tok(cond[0].kind, cond[0].text, cond[0].pos, "")
+            out += [_stop(syn("if !(", t.pos, t.ws))] + cond + [syn(") { return Err(" + err + "); }", toks[close].pos, "")]
+            i = close + 1
+            if i < len(toks) and is_p(toks[i], ";"):
+                i += 1
+            hits += 1
+            continue
+        out.append(t)
+        i += 1
+    if hits == 0:
+        raise Undecided(f"lost anchor: no ensure!( in {fn}")
+    rep.rule("R28 anyhow ensure!(cond, msg) -> if !(cond) { return Err(opaque error) }", hits)
+    rep.drop("message arguments of ensure! (the error value is opaque)", hits)
+    return out
+
+
 def rule_R10(toks: List[Tok], which: List[str], rep: Report, fn: str) -> List[Tok]:
     """E?  ->  (match E { Ok(v__) => v__, Err(e__) => return Err(From::from(e__)) })
     Verus gives `?` no error-conversion semantics; the desugared form is the definition of `?` for Result."""
@@ -1709,6 +1739,11 @@ class UnitBuilder:
             for fname, k in sorted(ws.foreach, key=lambda x: -x[1]):
                 if fname == name:
                     toks = rule_R7(toks, k, self.rep, fnq)
+            if ws.ensure_err:
+                toks = rule_R28(toks, ws.ensure_err, self.rep, fnq)
+            fscans = [k for fname, k in ws.scans if fname == name]
+            if fscans:
+                toks = rule_R13(toks, [(k, k) for k in fscans], self.rep, fnq)
             for lf in ws.lifts:
                 # a lift of a wrap names an anchor in one of its fragments: it is applied where the anchor is found
                 try:
